@@ -14,7 +14,8 @@
      where padding is blanks, a " &" before a line break, a line break, '$' comments and C comment lines, and NAME
      is a non-empty run of  A-Z a-z 0-9 _ . / -  in which no letter and no '-' directly follows a digit and no
      'e', 'E' or '-' directly follows a '.' (the lexer would cut such a name into number-like pieces: 2r, 3i, 1-,
-     1.e are answered ParsingError or a bare ValueError); everything else that starts with the word "read" is
+     1.e are answered ParsingError or a bare ValueError), and which is not the single letter c ("read file=c $ x"
+     is lexed as the file name "c $ x"); everything else that starts with the word "read" is
      answered ParsingError here (an approximation: the real parser accepts some names outside the class, e.g. 1a.i,
      and leaks LexError for a double quote; the harness generates names inside the class and samples the boundary).
    The file system is an association list from the path strings handed to open() to file bytes; a relative path
@@ -78,7 +79,9 @@ Fixpoint name_seq (prev : ascii) (s : string) : bool :=
   end.
 
 Definition name_ok (s : string) : bool :=
-  andb (negb (is_empty s)) (andb (all_chars name_char s) (name_seq " "%char s)).
+  andb (negb (is_empty s))
+ (andb (all_chars name_char s)
+ (andb (name_seq " "%char s) (negb (String.eqb (lower s) "c")))).      (* "c $ x" is lexed as one comment-like token *)
 
 (* '&' is padding when a blank (or nothing) precedes it; '=' becomes a word of its own *)
 Fixpoint pad_text (prev_blank : bool) (s : string) : option string :=
@@ -173,7 +176,7 @@ Definition qitem := (nat * string * string)%type.      (* block type, file name,
 
 Inductive yielded := YInput (path : string) (i : input) | YNone.
 
-Inductive ra_err := E_Unsupported | E_Parsing | E_FileNotFound | E_OutOfFuel.
+Inductive ra_err := E_Unsupported | E_Parsing | E_FileNotFound | E_OutOfFuel | E_Cycle.
 
 (* the inputs before the first read card that does not parse, and whether there is one *)
 Fixpoint cut_at_err (ins : list input) : list input * bool :=
@@ -230,6 +233,61 @@ Fixpoint drain (fuel : nat) (ft : opener) (dir : string) (w : nat) (q : list qit
       end
   end.
 
+(* ------------------------------------------------------------------ proposed repair C20-1 of the drain loop:
+   for every file read so far the set of files that led to it (os.path.realpath keys); a read card whose target is
+   among the files that led to its own file raises MalformedInputError before the target is opened.
+   realpath is modelled as normpath(abspath) : the model's file systems have no symbolic links. *)
+Fixpoint norm_segs (segs acc : list string) : list string :=      (* acc is reversed *)
+  match segs with
+  | [] => rev acc
+  | sg :: r =>
+      if orb (is_empty sg) (String.eqb sg ".") then norm_segs r acc
+      else if String.eqb sg ".." then norm_segs r (List.tl acc)
+      else norm_segs r (sg :: acc)
+  end.
+
+Definition realpath (cwd p : string) : string :=
+  "/" ++ join "/" (norm_segs (split_on "/"%char (abs_path cwd p)) []).
+
+Definition lineage := list (string * list string).
+
+Fixpoint lin_get (l : lineage) (k : string) : list string :=
+  match l with
+  | [] => []
+  | (k', v) :: r => if String.eqb k' k then v else lin_get r k
+  end.
+
+Fixpoint mem_str (k : string) (l : list string) : bool :=
+  match l with [] => false | x :: r => orb (String.eqb x k) (mem_str k r) end.
+
+Fixpoint drain_g (fuel : nat) (ft : opener) (cwd dir : string) (w : nat) (lin : lineage) (q : list qitem)
+  : list yielded * option ra_err :=
+  match q with
+  | [] => ([], None)
+  | (bt, name, parent) :: q' =>
+      match fuel with
+      | O => ([], Some E_OutOfFuel)
+      | S f =>
+          let p := path_join dir name in
+          let pk := realpath cwd parent in
+          let anc := List.app (lin_get lin pk) [pk] in
+          let k := realpath cwd p in
+          if mem_str k anc then ([], Some E_Cycle)
+          else
+            let lin' := (k, List.app (lin_get lin k) anc) :: lin in
+            match ft p with
+            | None => ([], Some E_FileNotFound)
+            | Some ls =>
+                match scan_file w true bt p ls with
+                | (ys, qs, Some e) => (ys, Some e)
+                | (ys, qs, None) =>
+                    let (ys', e') := drain_g f ft cwd dir w lin' (List.app q' qs) in
+                    (List.app ys ys', e')
+                end
+            end
+      end
+  end.
+
 Record ra_result := mkRA {
   ra_message : option (list string);
   ra_title : option string;
@@ -253,6 +311,21 @@ Definition read_all_ft (w : nat) (ft : opener) (top : string) (fuel : nat) : ra_
 
 Definition read_all (w : nat) (fs : fsys) (cwd top : string) (fuel : nat) : ra_result :=
   read_all_ft w (fs_text fs cwd) top fuel.
+
+(* the same with repair C20-1 *)
+Definition read_all_g (w : nat) (fs : fsys) (cwd top : string) (fuel : nat) : ra_result :=
+  let ft := fs_text fs cwd in
+  match ft top with
+  | None => mkRA None None [] (Some E_FileNotFound)
+  | Some ls =>
+      let fm := read_front_matters ls in
+      match scan_file w false 0 top (f_rest fm) with
+      | (ys, qs, Some e) => mkRA (f_message fm) (f_title fm) ys (Some e)
+      | (ys, qs, None) =>
+          let (ys', e') := drain_g fuel ft cwd (dirname top) w [(realpath cwd top, [])] qs in
+          mkRA (f_message fm) (f_title fm) (List.app ys ys') e'
+      end
+  end.
 
 Definition inputs_of (ys : list yielded) : list (string * input) :=
   flat_map (fun y => match y with YInput p i => [(p, i)] | YNone => [] end) ys.
@@ -496,6 +569,7 @@ Definition flatten (w : nat) (t : stree) (top : string) (tsf : sfile) (n : nat) 
 
 (* ------------------------------------------------------------------ wire
    readall <w> <fuel> <cwdhex> <tophex> <pathhex>=<byteshex>,...   ("-" = no file, "-" = empty bytes)
+   readallg ...   the same with proposed repair C20-1 (cycle guard)      realpath <cwdhex> <phex>
    isread <hexline,hexline..>      name <hexline,...>      dirname <hex>     join <hex> <hex>
    cardok <w> <hexline,...>  (answers card_ok / lcard_ok)
    flatten <w> <n> <tophex> <file> <pathhex>=<file>;...     file = block/block/... , block = card+card.. ("-" empty),
@@ -514,6 +588,7 @@ Definition show_ra_err (e : option ra_err) : string :=
   | Some E_Parsing => "ParsingError"
   | Some E_FileNotFound => "FileNotFoundError"
   | Some E_OutOfFuel => "outoffuel"
+  | Some E_Cycle => "MalformedInputError"
   end.
 
 Definition parse_fs (s : string) : fsys :=
@@ -555,6 +630,12 @@ Definition run_ReadQ (req : string) : string :=
       | Some W, Some F => show_ra (read_all W (parse_fs fs) (hex_decode cwd) (hex_decode top) F)
       | _, _ => "parse:err"
       end
+  | ["readallg"; w; fuel; cwd; top; fs] =>
+      match parse_nat w, parse_nat fuel with
+      | Some W, Some F => show_ra (read_all_g W (parse_fs fs) (hex_decode cwd) (hex_decode top) F)
+      | _, _ => "parse:err"
+      end
+  | ["realpath"; cwd; p] => "r" ++ hex_encode (realpath (hex_decode cwd) (hex_decode p))
   | ["isread"; ls] => if is_read_input (parse_lines ls) then "1" else "0"
   | ["name"; ls] =>
       match classify_lines (parse_lines ls) with
